@@ -1622,6 +1622,14 @@ where
                 fat_start + BlockCount(u32::from(bpb.num_fats()) * bpb.fat_size());
             // Safe to unwrap since this is a Fat32 Type
             let info_location = bpb.fs_info_block().unwrap();
+            // The information sector lives in the reserved area in front of
+            // the FATs - certainly inside the volume, whose end is known to be
+            // addressable.
+            if info_location.0 >= bpb.total_blocks() {
+                return Err(Error::FormatError(
+                    "Information sector lies outside the volume",
+                ));
+            }
             let mut volume = FatVolume {
                 lba_start,
                 num_blocks,
